@@ -30,6 +30,8 @@ type Plan struct {
 	BarrierN       int      `json:"barrier_n,omitempty"`
 	BarrierAfterMs int      `json:"barrier_after,omitempty"`
 	BarrierFree    bool     `json:"barrier_free,omitempty"`
+	// real nanoseconds by which a contender (full key) leaves the line-up after the others
+	BarrierStaggerNs map[string]int `json:"barrier_stagger_ns,omitempty"`
 	// Points that actually park goroutines; empty = all.
 	ParkPoints []string `json:"park_points,omitempty"`
 	Note       string   `json:"note,omitempty"`
@@ -82,6 +84,7 @@ type Req struct {
 	Method  string `json:"method,omitempty"`
 	Kind    string `json:"kind"` // plain | slow | forever | upgrade
 	HoldMs  int    `json:"hold,omitempty"`
+	Chunked bool   `json:"chunked,omitempty"` // slow only: the target sends half of the body at once, the rest after HoldMs
 	Cookie  string `json:"cookie,omitempty"`
 	HC      bool   `json:"hc,omitempty"` // GET on exactly the health-check path
 	TLS     bool   `json:"tls,omitempty"`
